@@ -189,6 +189,9 @@ class ManifestContext:
     def create_all_vod_periods(self,
                                multi_period: models.MultiPeriodStream) -> None:
         start: datetime.timedelta = datetime.timedelta(0)
+        if not multi_period.periods:
+            # (the live manifest of such a stream is refused in the same way)
+            raise ValueError(f'Multi-period stream {multi_period.name} has no periods')
         for prd in multi_period.periods:
             self.check_period_stream(prd)
             timing = DashTiming(
